@@ -84,6 +84,40 @@ theorem C20_num_bool_rejected (b : Base) (rs : List Restr) (j : Join) (t : Bool)
   have ha := ((validateNum_iff b rs j _ x).mp h).1
   cases b <;> simp [asBase] at ha
 
+/-- `T(v)` never raises `OverflowError`: an integer beyond the float range (and everything else that does not convert)
+is an ordinary rejection (`ValueError`), or a `TypeError` for objects that are no number or text at all -/
+theorem C20_num_no_overflow (b : Base) (rs : List Restr) (j : Join) (v : PyVal) :
+    validateNum b rs j v ≠ .error .overflow := by
+  intro h
+  unfold validateNum at h
+  cases hv : validationFn b rs j v with
+  | error e =>
+    simp only [hv] at h
+    cases h
+    unfold validationFn at hv
+    split at hv
+    · cases hv
+    · split at hv
+      · cases hv
+      · cases hc : castBase b v with
+        | error e' =>
+          simp only [hc] at hv
+          cases e' <;> cases hv
+        | ok vv =>
+          simp only [hc] at hv
+          split at hv <;> cases hv
+  | ok u =>
+    simp only [hv] at h
+    -- validation passed, so the second `cls._type(v)` is the conversion that already succeeded
+    unfold validationFn at hv
+    split at hv
+    · cases hv
+    · split at hv
+      · cases hv
+      · cases hc : castBase b v with
+        | error e' => simp only [hc] at hv; cases hv
+        | ok vv => rw [hc] at h; cases h
+
 /-- non-vacuity: accepted and rejected inputs of every kind -/
 example : validateNum .int [(.gt, .fin 0)] .and (.int 5) = .ok (.i 5) := by decide +kernel
 example : validateNum .int [(.gt, .fin 0)] .and (.int 0) = .error .value := by decide +kernel
@@ -98,7 +132,7 @@ example : validateNum .float [(.lt, .fin 0), (.ge, .fin 1)] .or (.float (.fin (m
 example : validateNum .float [(.lt, .fin 0), (.ge, .fin 1)] .and (.int 2) = .error .value := by decide +kernel
 example : validateNum .float [(.ne, .fin 0)] .and (.float .nan) = .ok (.f .nan) := by decide +kernel
 example : validateNum .float [(.ge, .fin 0)] .and (.str "1e400".toList) = .ok (.f (.inf false)) := by decide +kernel
-example : validateNum .float [(.ge, .fin 0)] .and (.int (10 ^ 400)) = .error .overflow := by decide +kernel
+example : validateNum .float [(.ge, .fin 0)] .and (.int (10 ^ 400)) = .error .value := by decide +kernel
 example : validateNum .float [] .and (.int (2 ^ 53 + 1)) = .ok (.f (.fin (2 ^ 53 : Nat))) := by decide +kernel
 
 /-! ### tie: operator table and predefined number types -/
@@ -431,6 +465,34 @@ theorem C20_text_plain_complex (re im : Part) : resolveLoad (String.ofList (comp
     simpa [resolveLoad] using this
   · simpa [resolveLoad] using safe_of_accepts mParen _ paren_cert _ (paren_accepts _)
 
+open Jap.Scalar Jap.TextSafe in
+/-- ANY text that contains a character no resolver pattern mentions is a plain string for the loader -/
+theorem C20_text_plain_other_char (x : Char) (hx : charClass x = cJ) (a b : List Char) :
+    resolveLoad (String.ofList (a ++ x :: b)) = .str := by
+  simpa [resolveLoad] using safe_of_accepts mHasJ _ hasJ_cert _ (hasOther_accepts x hx a b)
+
+open Jap.Scalar Jap.TextSafe in
+/-- which characters these are, with the resolver tables as regenerated from the live Loader -/
+theorem C20_other_chars_tie :
+    ("GHJKMPQVWXghjkmpqvwz/@,()\\".toList.all fun c => charClass c = cJ) = true ∧
+    ("0123456789+-.:=_eEtTfFnNyYoOxbBaAlLsSuUrRiI~ ".toList.all fun c => charClass c ≠ cJ) = true := by decide +kernel
+
+open Jap.Scalar Jap.TextSafe in
+/-- every path text with a separator (all absolute paths), every text with an `@` (all `Email` values), and every
+base64 text — padded or not — that contains `/` or one of the letters above is read back as a string -/
+theorem C20_text_plain_sep_at_b64 :
+    (∀ a b : List Char, resolveLoad (String.ofList (a ++ '/' :: b)) = .str) ∧
+    (∀ a b : List Char, resolveLoad (String.ofList (a ++ '@' :: b)) = .str) ∧
+    (∀ (bs : List Nat) (c : Char), c ∈ b64encode bs → charClass c = cJ → resolveLoad (String.ofList (b64encode bs)) = .str) := by
+  refine ⟨fun a b => C20_text_plain_other_char '/' (by decide +kernel) a b,
+    fun a b => C20_text_plain_other_char '@' (by decide +kernel) a b, ?_⟩
+  intro bs c hc hcls
+  obtain ⟨a, b, hab⟩ := List.append_of_mem hc
+  rw [hab]
+  exact C20_text_plain_other_char c hcls a b
+
+example : 'G' ∈ b64encode [24, 97, 255] ∧ Jap.Scalar.charClass 'G' = Jap.TextSafe.cJ := by decide +kernel
+
 example : (⟨-3, 0, 5⟩ : TD).days ≠ 0 := by decide
 example : [1, 2].length % 3 ≠ 0 := by decide
 
@@ -471,6 +533,22 @@ theorem C20_handlers_tie :
     handlerOf "pathlib.Path" = some ("str", "Path") ∧
     handlerOf "pathlib.PosixPath" = some ("str", "PosixPath") ∧
     handlerOf "os.PathLike" = some ("str", "str") := by decide
+
+def excOf (name : String) : Option (List String) :=
+  (Jap.Gen.Registered.registeredExc.find? (fun r => r.1 = name)).map (·.2)
+
+/-- the declared exceptions of each built-in handler (`RegisteredType.deserializer` turns exactly these into the
+parser's `ValueError`): the arithmetic types also declare `ArithmeticError` (`OverflowError`, `decimal.InvalidOperation`) -/
+theorem C20_handler_exceptions_tie :
+    excOf "builtins.complex" = some ["ValueError", "TypeError", "AttributeError", "ArithmeticError"] ∧
+    excOf "decimal.Decimal" = some ["ValueError", "TypeError", "AttributeError", "ArithmeticError"] ∧
+    excOf "datetime.timedelta" = some ["ValueError", "TypeError", "AttributeError", "ArithmeticError"] ∧
+    excOf "uuid.UUID" = some ["ValueError", "TypeError", "AttributeError"] ∧
+    excOf "builtins.range" = some ["ValueError", "TypeError", "AttributeError"] ∧
+    excOf "builtins.bytes" = some ["ValueError", "TypeError", "AttributeError"] ∧
+    excOf "builtins.bytearray" = some ["ValueError", "TypeError", "AttributeError"] ∧
+    excOf "pathlib.Path" = some ["ValueError", "TypeError", "AttributeError"] ∧
+    excOf "jsonargparse.typing.SecretStr" = some ["ValueError", "TypeError", "AttributeError"] := by decide
 
 /-! ### `SecretStr` -/
 
@@ -745,21 +823,6 @@ theorem C20_registered_parse_error {α β : Type} (h : Handler α β) (v : RVal 
 value back, not an instance -/
 example : regRoundTrip (⟨fun _ => 7, fun _ => .ok 1, fun _ => true⟩ : Handler Nat Nat) id 1 = .ok (.basic 7) := by decide
 
-/-- a handler built from a codec pair of the model: `str`-like serializer, deserializer errors are declared ones,
-default `type_check` -/
-def codecHandler {α : Type} (ser : α → List Char) (deser : List Char → Except Err α) : Handler α (List Char) where
-  ser := fun v => match v with
-    | .inst a => ser a
-    | .basic s => s
-  deser := fun v => match v with
-    | .basic s => match deser s with
-      | .ok a => .ok a
-      | .error _ => .error .listed
-    | .inst _ => .error .listed
-  isType := fun v => match v with
-    | .inst _ => true
-    | .basic _ => false
-
 /-- the built-in codecs of the model through the adapter branch: every range, normalised timedelta, byte string and
 UUID comes back as an instance when the channel preserves the text -/
 theorem C20_builtin_rt_through_adapter (chan : List Char → List Char) (hch : ∀ s, chan s = s) :
@@ -838,12 +901,15 @@ theorem C20_predefined_boundaries :
     validateNum .float [(.ge, .fin 0), (.le, .fin 1)] .and (.int 1) = .ok (.f (.fin 1)) ∧
     validateNum .float [(.ge, .fin 0), (.le, .fin 1)] .and (.bool true) = .error .value ∧
     validateNum .int [(.ge, .fin 0)] .and (.int (10 ^ 400)) = .ok (.i (10 ^ 400)) ∧
+    validateNum .float [(.ge, .fin 0)] .and (.int (10 ^ 400)) = .error .value ∧
+    validateNum .float [(.gt, .fin 0)] .and (.int (-(10 ^ 400))) = .error .value ∧
+    validateNum .float [(.ge, .fin 0)] .and (.int (2 ^ 1024 - 2 ^ 970 - 1)) = .ok (.f (.fin ((2 ^ 1024 - 2 ^ 971 : Nat) : Rat))) ∧
     validateNum .int [(.ge, .fin 0)] .and (.float (.fin ((10 ^ 22 : Nat) : Rat))) = .ok (.i (10 ^ 22)) ∧
     validateNum .int [(.ge, .fin 0)] .and (.float (.inf false)) = .error .value ∧
     validateNum .int [(.ge, .fin 0)] .and (.str "0".toList) = .ok (.i 0) ∧
     validateNum .int [(.ge, .fin 0)] .and (.str "0.0".toList) = .error .value ∧
     validateNum .int [(.ge, .fin 0)] .and (.bool false) = .error .value := by
-  refine ⟨?_, ?_, ?_, ?_, ?_, ?_, ?_, ?_, ?_, ?_, ?_, ?_, ?_, ?_, ?_⟩ <;> decide +kernel
+  refine ⟨?_, ?_, ?_, ?_, ?_, ?_, ?_, ?_, ?_, ?_, ?_, ?_, ?_, ?_, ?_, ?_, ?_, ?_⟩ <;> decide +kernel
 
 /-- `NonNegativeInt(v)` succeeds iff `v` denotes an integer `n ≥ 0`, and returns it -/
 theorem C20_NonNegativeInt (v : PyVal) (x : BVal) :
@@ -929,7 +995,10 @@ theorem C20_src_restricted_number_type_tie : Jap.Gen.TypingSrc.restrictedNumberT
   "      raise ValueError(...)",
   "    if cls._type == int and isinstance(v, float) and (not float.is_integer(v)):",
   "      raise ValueError(...)",
-  "    vv = cls._type(v)",
+  "    try:",
+  "      vv = cls._type(v)",
+  "    except OverflowError as ex:",
+  "      raise ValueError(...) from ex",
   "    check = [comparison(vv, ref) for comparison, ref in cls._restrictions]",
   "    if cls._join == 'and' and (not all(check)) or (cls._join == 'or' and (not any(check))):",
   "      raise ValueError(...)",
@@ -1102,12 +1171,13 @@ theorem C20_src_module_registrations_tie : Jap.Gen.TypingSrc.moduleRegistrations
   "Path_dc = path_type('dc')",
   "Path_drw = path_type('drw')",
   "register_type(os.PathLike, str, str)",
-  "register_type(complex)",
-  "register_type_on_first_use('decimal.Decimal', float)",
+  "arithmetic_deserializer_exceptions = (ValueError, TypeError, AttributeError, ArithmeticError)",
+  "register_type(complex, deserializer_exceptions=arithmetic_deserializer_exceptions)",
+  "register_type_on_first_use('decimal.Decimal', float, deserializer_exceptions=arithmetic_deserializer_exceptions)",
   "register_type_on_first_use('uuid.UUID')",
   "for _path in [pathlib.Path, pathlib.PosixPath, pathlib.WindowsPath]:",
   "  register_type(_path, str, _path, type_check=isinstance)",
-  "register_type_on_first_use('datetime.timedelta', deserializer=timedelta_deserializer)",
+  "register_type_on_first_use('datetime.timedelta', deserializer=timedelta_deserializer, deserializer_exceptions=arithmetic_deserializer_exceptions)",
   "register_type_on_first_use('builtins.bytes', serializer=bytes_serializer, deserializer=bytes_deserializer)",
   "register_type_on_first_use('builtins.bytearray', serializer=bytes_serializer, deserializer=bytearray_deserializer)",
   "re_range_stop = re.compile('^(-?\\\\d+)$')",
